@@ -64,8 +64,8 @@ def concatenate(fields, target={}, resources=None):
                         continue
                     if orig_name in pk:
                         target['schema']['primaryKey'].append(name)
-                    target['schema']['fields'].append(field)
-                    field['name'] = name
+                    # a copy: the source field may be shared with resources that are not concatenated
+                    target['schema']['fields'].append(dict(field, name=name))
                     needed_fields.remove(name)
 
         if len(target['schema']['primaryKey']) == 0:
